@@ -9,7 +9,10 @@ Oracles (all independent of the codec implementation: round trip, exception clas
        trajectory, actions, records, termination (global RNG re-seeded differently first);
  (iii) decoding with a scenario compiled from a different AST / mode2D / params / model /
        scenario name raises SerializationError (both directions); an identical recompile
-       decodes to the same scene;
+       decodes to the same scene; plus, for every program, a variant compile whose options
+       differ only in a param override with an "empty" value (0, 0.0, False, "", None: added,
+       removed, or replaced by an empty value of another kind -- values that are == in Python
+       are never opposed) -- judged only if the two scenes really differ in that parameter;
  (iv)  every proper prefix of a scene encoding raises SerializationError; for replays: inside
        the header and strictly inside a value's encoding;
  (v)   [replays: judged only while *decoding* -- an exception raised by a later computation
@@ -20,7 +23,12 @@ Oracles (all independent of the codec implementation: round trip, exception clas
        either decode or raise SerializationError (replays: additionally the documented
        DivergenceError / rejection);
  (vi)  replay of a run recorded with enableDivergenceCheck, with one reported dynamic property
-       shifted by delta at one update: DivergenceError  <=>  |delta| > divergenceTolerance.
+       shifted by delta at one update: DivergenceError  <=>  |delta| > divergenceTolerance;
+       and (check_stuck) recordings / replays in which the harness simulator lets one property
+       drift by delta per update, one of the two getting *stuck* from some update on (reports
+       the previous value again): DivergenceError exactly at the first update whose reported
+       value is farther than the tolerance from the recorded one, for a replay that stays put
+       while the recording moves and vice versa, both signs, float / Vector / int.
 """
 
 from __future__ import annotations
@@ -47,7 +55,9 @@ RULE = ("Hypothesis-generated Scenic programs (static fragment: every built-in p
         "behaviors / monitors drawing from all of these at run time, do choose / shuffle, soft "
         "requirements, terminate, records) plus direct codec values; per program: round trip, "
         "all truncations, byte corruptions at every offset, cross-decoding against a variant "
-        "compile, replay, replay truncation/corruption, one perturbed replay.  Non-trivial = the "
+        "compile and against a compile differing only in a falsy-valued param override, replay, "
+        "replay truncation/corruption, one perturbed replay per type/sign/side of the tolerance, "
+        "replays of drifting recordings in a simulator that is stuck (and the converse).  Non-trivial = the "
         "scene encoding holds >= 3 values of >= 2 codecs, or the simulation drew >= 1 run-time "
         "random value; distinct = SHA-1 of the case.")
 ASSUMPTIONS = [
@@ -368,12 +378,110 @@ def check_cross(out, prog, kind, base, scene, data, seed, src):
         out.fail(f"cross:{kind}|{core.exc_signature(val)}", source=src, error=repr(val)[:300])
 
 
+# Compile options that differ only in a param override whose value is "empty".  Values that
+# compare equal in Python (0, 0.0, False) are never opposed to each other: whether 0 and 0.0
+# are *different* options is not stated anywhere, so such pairs are not generated.
+FALSY = [0, 0.0, False, "", None]
+FALSY_GROUP = [0, 0, 0, 1, 2]
+_MISSING = ["<no such param>"]
+
+
+def falsy_name(v):
+    return {int: "int0", float: "float0", bool: "False", str: "empty-str",
+            type(None): "None"}[type(v)]
+
+
+def is_falsy_override(v):
+    return v is None or (isinstance(v, (int, float, str)) and not v)
+
+
+def falsy_variant(prog, sel):
+    """(label, overrides of the variant compile): the base compile's overrides with one
+    falsy-valued override added / removed / replaced by a falsy value of another kind."""
+    base = dict(prog["ovr"])
+    g = FALSY[sel % 5]
+    mode = (sel // 5) % 3
+    if not base:
+        return "absent-vs-" + falsy_name(g), {("zz" if mode == 2 else "q0"): g}
+    f = base["q0"]
+    if is_falsy_override(f):
+        if mode == 0:
+            return falsy_name(f) + "-vs-absent", {}
+        if mode == 1:
+            gf = FALSY_GROUP[[type(x) for x in FALSY].index(type(f))]
+            others = [x for x, grp in zip(FALSY, FALSY_GROUP) if grp != gf]
+            h = others[sel % len(others)]
+            return falsy_name(f) + "-vs-" + falsy_name(h), {"q0": h}
+        return "extra-" + falsy_name(g), {"q0": f, "zz": g}
+    if mode == 1:
+        return "truthy-vs-" + falsy_name(g), {"q0": g}
+    return "extra-" + falsy_name(g), {"q0": f, "zz": g}
+
+
+def same_param(a, b):
+    if a is _MISSING or b is _MISSING:
+        return a is b
+    if canon.canon(a) == canon.canon(b):
+        return True
+    try:
+        return bool(a == b)
+    except Exception:
+        return False
+
+
+def check_cross_falsy(out, prog, base, scene, data, case, src):
+    """(iii) for compile options differing only in a falsy param override.  Refusal is demanded
+    only if the two compiles really give the overridden global parameter different values in
+    the scenes at hand (an override that repeats what the program says anyway is not judged)."""
+    sel = case.get("falsy")
+    if sel is None:
+        return
+    label, ovr = falsy_variant(prog, sel)
+    try:
+        other = compile_prog(prog, params=ovr)
+    except core.CaseTimeout:
+        raise
+    except Exception:
+        out.cls("cross:falsy:n/a")
+        return
+    s2 = generate(other, case["seed"])
+    if s2 is None or isinstance(s2, str):
+        out.cls("cross:falsy:n/a")
+        return
+    names = {n for n in set(ovr) | set(prog["ovr"])
+             if not (n in ovr and n in prog["ovr"] and same_param(ovr[n], prog["ovr"][n]))}
+    if not names:
+        raise core.HarnessError("falsy variant does not differ from the base options")
+    if all(same_param(scene.params.get(n, _MISSING), s2.params.get(n, _MISSING))
+           for n in names):
+        out.cls("cross:falsy:same-effect-unjudged")
+        return
+    out.cls("cross:falsy:" + label)
+    kind = "params-falsy"
+    k, val = decode_outcome(lambda: other.sceneFromBytes(data))
+    if k == "ok":
+        out.fail(f"cross:{kind}|accepted", source=src, direction="base->variant",
+                 base=repr(prog["ovr"]), variant=repr(ovr))
+    elif k == "other":
+        out.fail(f"cross:{kind}|{core.exc_signature(val)}", source=src, error=repr(val)[:300])
+    try:
+        d2 = other.sceneToBytes(s2)
+    except Exception:
+        return
+    k, val = decode_outcome(lambda: base.sceneFromBytes(d2))
+    if k == "ok":
+        out.fail(f"cross:{kind}|accepted", source=src, direction="variant->base",
+                 base=repr(prog["ovr"]), variant=repr(ovr))
+    elif k == "other":
+        out.fail(f"cross:{kind}|{core.exc_signature(val)}", source=src, error=repr(val)[:300])
+
+
 # ---- simulations -------------------------------------------------------------------------------
 
 def run_sim(scene, dyn, **kw):
     from vf.c18_sim import HSimulator
 
-    simulator = HSimulator(perturb=kw.pop("perturb", None))
+    simulator = HSimulator(perturb=kw.pop("perturb", None), drift=kw.pop("drift", None))
     sim = simulator.simulate(scene, maxSteps=dyn["maxSteps"], timestep=dyn["timestep"], **kw)
     return simulator, sim
 
@@ -544,6 +652,7 @@ def check_simulation(out, prog, scenario, scene, case, src, tier):
 
     # (vi) perturbed replay
     check_divergence(out, scenario, scene, sim, blob, dyn, case, src)
+    check_stuck(out, scenario, scene, sim, dyn, case, src)
 
 
 TOLS = [0, 0, 0.25, 1.0, 2.5]
@@ -648,6 +757,158 @@ def check_divergence(out, scenario, scene, sim, blob, dyn, case, src):
                 out.fail(f"{cell}|false-divergence", error=str(val)[:300], **detail)
             elif not expect and k == "ser":
                 out.fail(f"{cell}|SerializationError", error=str(val)[:300], **detail)
+
+
+def pick_dynamic(sim, pl, want):
+    """(object index, property name) of the first object (from the case's choice on) that has a
+    dynamic property of the wanted type and was updated at least once; or None."""
+    nobj = len(sim.objects)
+    for di in range(nobj):
+        i = (pl["obj"] + di) % nobj
+        types = type(sim.objects[i])._simulatorProvidedProperties
+        names = sorted(p for p, ty in types.items() if ty.__name__ == want)
+        if names and sim.updates[i] > 0:
+            return i, names[pl["prop"] % len(names)]
+    return None
+
+
+def report_diff(a, b):
+    """(distance, scale) between a recorded and a replayed reported value, by the documented
+    rule: scalars |a-b|, vectors the Euclidean norm, anything else equal / not equal."""
+    from scenic.core.vectors import Vector
+
+    if isinstance(a, Vector) and isinstance(b, Vector):
+        return (math.hypot(*[float(x) - float(y) for x, y in zip(a, b)]),
+                max([1.0] + [abs(float(c)) for c in a] + [abs(float(c)) for c in b]))
+    if isinstance(a, (int, float)) and isinstance(b, (int, float)) \
+            and not isinstance(a, bool) and not isinstance(b, bool):
+        return abs(a - b), max(1.0, abs(float(a)), abs(float(b)))
+    return (0 if a == b else math.inf), 1.0
+
+
+def first_beyond(recorded, replayed, tol):
+    """Index (into `replayed`) of the first update report in which some dynamic property is
+    farther than `tol` from the recorded one; None if there is none; 'band' if some distance
+    is within rounding of the tolerance; 'unmatched' if an update was never recorded."""
+    rec = {(i, u): vals for i, u, vals in recorded}
+    first = None
+    for n, (i, u, vals) in enumerate(replayed):
+        if (i, u) not in rec:
+            return "unmatched"
+        for p, v in vals.items():
+            d, scale = report_diff(rec[(i, u)][p], v)
+            if d != d:
+                return "band"
+            if d != math.inf and abs(d - tol) <= 1e-9 * max(scale, tol) \
+                    and not (d == 0 and tol == 0):
+                return "band"
+            if d > tol and first is None:
+                first = n
+    return first
+
+
+def check_stuck(out, scenario, scene, sim, dyn, case, src):
+    """(vi) a property that moves in the recording while the replaying simulator keeps
+    reporting the same value (and the other way round), for both signs.
+
+    The run is recorded twice with the harness simulator reporting `true + delta * update` for
+    one dynamic property: once all the way (A), once getting stuck from update u0 on (B: every
+    later update reports what update u0-1 reported).  Replaying A in simulator B is a replay
+    whose property stays put while the recording moves on; replaying B in simulator A the
+    opposite.  What each simulator reported is logged by the harness, so the expected verdict
+    (DivergenceError at the first update whose report is farther than the tolerance from the
+    recorded report, by the documented distance) does not involve Scenic."""
+    from vf.c18_sim import HSimulator
+
+    pl = case.get("stuck")
+    if pl is None:
+        return
+    pp = case["perturb"]
+    tol = TOLS[pp["tol"] % len(TOLS)]
+    for t, want in enumerate(("float", "Vector", "int")):
+        pick = pick_dynamic(sim, pp, want)
+        if pick is None:
+            continue
+        i, prop = pick
+        if sim.updates[i] < 2:
+            out.cls("stuck:n/a:single-update")
+            continue
+        u0 = 1 + pl["update"] % (sim.updates[i] - 1)
+        sign = 1 if (pl["sign"] + t) % 2 == 0 else -1
+        if pl["mag"] == 0 and want != "int":
+            # stays within the tolerance over the <= 8 updates of a run unless the property
+            # also moves on its own
+            mag = tol / 16 if tol else 2.0 ** -20
+        elif want == "int":
+            mag = int(2 * tol) + 2
+        else:
+            mag = 2 * tol + 1.0
+        if want == "Vector":
+            if pp["diag"]:
+                c = mag / 2.0
+                delta = [sign * c, -sign * c, sign * c * 2 ** 0.5]
+            else:
+                delta = [0.0, 0.0, 0.0]
+                delta[pp["axis"] % 3] = float(sign * mag)
+        else:
+            delta = sign * mag
+        plans = {"moving": {"obj": i, "prop": prop, "delta": delta, "freeze_from": None},
+                 "stuck": {"obj": i, "prop": prop, "delta": delta, "freeze_from": u0}}
+        recs = {}
+        for name, plan in plans.items():
+            seed_all(case["seed"] + 1)
+            try:
+                simulator, s2 = run_sim(scene, dyn, maxIterations=dyn["maxIterations"],
+                                        enableDivergenceCheck=True, drift=plan)
+            except core.CaseTimeout:
+                raise
+            except Exception as e:
+                out.cls("stuck:recording-error:" + type(e).__name__)
+                continue
+            if s2 is None:
+                out.cls("stuck:recording-rejected")
+                continue
+            recs[name] = (list(simulator.reports), scenario.simulationToBytes(s2))
+        if len(recs) != 2:
+            continue
+        # (recording, replaying simulator); direction = sign of replayed - recorded
+        for side, rname, pname in (("replay-static", "moving", "stuck"),
+                                   ("recording-static", "stuck", "moving")):
+            direction = "positive" if (sign > 0) == (side == "recording-static") else "negative"
+            recorded, blob = recs[rname]
+            seed_all(case["seed"] + 13)
+            simulator = HSimulator(drift=plans[pname])
+            k, val = replay_outcome(scenario, blob, dyn, simulator=simulator,
+                                    divergenceTolerance=tol)
+            replayed = list(simulator.reports)
+            fb = first_beyond(recorded, replayed, tol)
+            if fb == "band":
+                out.cls("near-boundary:stuck")
+                continue
+            if fb == "unmatched":
+                out.cls("unjudged:stuck-replay-ran-past-recording")
+                continue
+            out.cls(f"stuck:{want}:{direction}:{side}:" + ("within" if fb is None else "beyond"))
+            if side == "replay-static" and fb is not None:
+                # the shape proper: the replayed simulator reports, at the update that must
+                # be found divergent, exactly what it reported one update earlier
+                mine = [v[prop] for (j, u, v) in replayed if j == i]
+                if len(mine) >= 2 and report_diff(mine[-1], mine[-2])[0] == 0:
+                    out.cls(f"stuck:{want}:recording-moves-replay-repeats-previous-value")
+            cell = f"diverge-stuck:{want}:{direction}:{side}"
+            detail = dict(source=src, plan=plans[pname], recorded_with=plans[rname],
+                          tolerance=tol, seed=case["seed"], first_beyond=fb,
+                          reports=len(replayed))
+            if k == "other":
+                out.fail(f"{cell}|{core.exc_signature(val)}", error=repr(val)[:300], **detail)
+            elif k == "ser":
+                out.fail(f"{cell}|SerializationError", error=str(val)[:300], **detail)
+            elif fb is None and k == "div":
+                out.fail(f"{cell}|false-divergence", error=str(val)[:300], **detail)
+            elif fb is not None and k != "div":
+                out.fail(f"{cell}|not-detected", outcome=k, **detail)
+            elif fb is not None and fb != len(replayed) - 1:
+                out.fail(f"{cell}|detected-late", error=str(val)[:300], **detail)
 
 
 # ----------------------------------------------------------------------------------------------
@@ -822,6 +1083,7 @@ def judge(case, tier="quick"):
     kinds = variant_kinds(prog)
     kind = kinds[case["variant"] % len(kinds)]
     check_cross(out, prog, kind, scenario, scene, data, case["seed"], src)
+    check_cross_falsy(out, prog, scenario, scene, data, case, src)
     # (ii), (iv)-(vi) on simulations
     if prog["dyn"]:
         check_simulation(out, prog, scenario, scene, case, src, tier)
@@ -853,7 +1115,10 @@ def _cases(draw):
             "perturb": {"obj": draw(st.integers(0, 3)), "update": draw(st.integers(0, 9)),
                         "prop": draw(st.integers(0, 7)), "tol": draw(st.integers(0, 4)),
                         "axis": draw(st.integers(0, 2)),
-                        "diag": draw(st.integers(0, 3)) == 0}}
+                        "diag": draw(st.integers(0, 3)) == 0},
+            "falsy": draw(st.integers(0, 14)),
+            "stuck": {"update": draw(st.integers(0, 9)), "sign": draw(st.integers(0, 1)),
+                      "mag": draw(st.integers(0, 3))}}
 
 
 _CHECKED = False
@@ -891,6 +1156,24 @@ def selfcheck():
     xs = [float.fromhex(st_[0][0][1]) for st_ in res[0][1][1]]
     if xs != [x0, x0 + 0.5, x0 + 1.0, x0 + 1.5]:
         raise core.HarnessError(f"harness simulator trajectory unexpected: {xs}")
+    # stuck / drifting reports: yaw is constant in this run, so the reports are hand-computable
+    hs = HSimulator(drift={"obj": 0, "prop": "yaw", "delta": 0.5, "freeze_from": 2})
+    seed_all(1)
+    hs.simulate(scene, maxSteps=3, timestep=0.5)
+    y0 = scene.objects[0].yaw
+    if [(i, u, v["yaw"]) for i, u, v in hs.reports] != \
+            [(0, 0, y0), (0, 1, y0 + 0.5), (0, 2, y0 + 0.5), (0, 3, y0 + 0.5)]:
+        raise core.HarnessError(f"harness simulator drift/freeze plan unexpected: {hs.reports}")
+    from scenic.core.vectors import Vector
+
+    rec = [(0, u, {"p": 1.0 + u, "v": Vector(0, 0, 0)}) for u in range(3)]
+    rep = [(0, u, {"p": 1.0, "v": Vector(0, 0, 0)}) for u in range(3)]
+    if [first_beyond(rec, rep, t) for t in (1.5, 0.5, 5, 1.0, 0)] != [2, 1, None, "band", 1] \
+            or first_beyond(rep, rep, 0) is not None \
+            or first_beyond(rec[:2], rep, 0) != "unmatched" \
+            or report_diff(Vector(0, 0, 0), Vector(3, -4, 0)) != (5.0, 4.0) \
+            or report_diff(3, 5) != (2, 5.0) or report_diff("a", "b")[0] != math.inf:
+        raise core.HarnessError("stuck-replay oracle self-check failed")
     with trace_writes() as log:
         data = sc.sceneToBytes(scene)
     if [(a, b, t) for _, a, b, t in log["writes"]] != [(10, 18, "float")] or len(data) != 18:
